@@ -131,6 +131,28 @@ def load(R):
                labels={"use_defaults_at_call": True},
                notes="base_path / dirname / '.versions' / version / basename")
 
+    # ---- the one thing about _get_path_versioned that is NOT path arithmetic: which of the two file names it builds.  Proved on the real body (variant
+    # @metadata-key): whenever a metadata key is given -- ANY string, the empty one included -- the result is the metadata file name
+    # '<basename>.meta.<key>', never the name of the data object itself (metadata written "with the data" must not overwrite the data, C07 / C08)
+    for n_, (a_, r_) in dict(path_join=([TStr, TStr], TStr), os_dirname=([TStr], TStr), os_basename=([TStr], TStr)).items():
+        R.uf(n_, a_, r_)
+
+    def joinpath(ex, recv, args, kwargs):
+        s_ = ufs_now()["py_str"](recv.t)
+        for a in args:
+            s_ = ufs_now()["path_join"](s_, as_str(ex, a))
+        return path_obj(ex, s_)
+
+    def ufs_now():
+        return {k: v[0] for k, v in R.ufs.items()}
+    R.obj_method_hooks["joinpath"] = joinpath
+    R.constructors["os.path.dirname"] = lambda ex, args, kwargs: VStr(ufs_now()["os_dirname"](as_str(ex, args[0])))
+    R.constructors["os.path.basename"] = lambda ex, args, kwargs: VStr(ufs_now()["os_basename"](as_str(ex, args[0])))
+    R.contract(F + "_get_path_versioned@metadata-key", prop="C08", types={"self": FDS, "key": VKey, "metadata_key": TStr}, returns=TObj("nn:Path"),
+               ensures=["py_str(result) == path_join(path_join(path_join(path_join(B(self), os_dirname(esc(key.key))), '.versions'), key.version), "
+                        "os_basename(esc(key.key)) + '.meta.' + metadata_key)"],
+               labels={"vacuity_guard": True})
+
     # ---------------------------------------------------------------- assumed: the OS primitives
     # For a file that is open for writing (not in `closed`), files[p] is its LOGICAL content (written so far, buffered or on disk): what is
     # on disk is some prefix of it.  No invariant below says anything about the content of a file that is not closed.
